@@ -213,6 +213,16 @@ fn check_instance(rt: &Runtime, id: InstanceId, type_name: &str, path: &str, out
             conforms(rt, t, v, &format!("{path}.{n}"), out, depth);
         }
     }
+    // inherited variables live in the parent instance, declared by the base type
+    if let (Some(parent), true) = (inst.parent, depth < 12) {
+        let base = rt.function_blocks().get(key.as_str()).or_else(|| rt.function_blocks().values().find(|f| f.name.eq_ignore_ascii_case(type_name))).and_then(|fb| fb.base.as_ref()).map(|b| match b {
+            trust_runtime::eval::FunctionBlockBase::FunctionBlock(n) | trust_runtime::eval::FunctionBlockBase::Class(n) => n.to_string(),
+        });
+        let base = base.or_else(|| rt.classes().values().find(|c| c.name.eq_ignore_ascii_case(type_name)).and_then(|c| c.base.as_ref().map(|b| b.to_string())));
+        if let Some(base) = base {
+            check_instance(rt, parent, &base, path, out, depth + 1);
+        }
+    }
 }
 
 /// Check every program instance (and everything reachable from it) against the declared types.
@@ -652,17 +662,24 @@ fn matrix_cells(rng: &mut Rng, shard: usize, nshards: usize, budget: usize) -> V
             ));
         }
     }
-    // CASE selectors of every integer type, with ranges
+    // CASE selectors of every integer type at every boundary value (the type limits are reached by computation where they have
+    // no literal form), with single labels and ranges, with and without ELSE
     for t in gen::INTS {
-        n += 1;
-        if n % nshards != shard {
-            continue;
+        for v in bounds(t).into_iter().chain([Sv::I(3)]) {
+            for with_else in [true, false] {
+                n += 1;
+                if n % nshards != shard {
+                    continue;
+                }
+                let (init, pre) = init_for("s", t, v);
+                let els = if with_else { "ELSE\n  r := DINT#3;\n" } else { "" };
+                cells.push((
+                    format!("case {} {:?}", t.name(), v),
+                    format!("matrix|case|{}", if t.is_unsigned() { "unsigned-selector" } else { "signed-selector" }),
+                    format!("PROGRAM Main\nVAR\n  s : {} := {init};\n  r : DINT;\nEND_VAR\n{pre}CASE s OF\n  1: r := DINT#1;\n  2..4: r := DINT#2;\n{els}END_CASE;\nr := r + DINT#1;\nEND_PROGRAM\n", t.name()),
+                ));
+            }
         }
-        cells.push((
-            format!("case {}", t.name()),
-            format!("matrix|case|{}", if t.is_unsigned() { "unsigned-selector" } else { "signed-selector" }),
-            format!("PROGRAM Main\nVAR\n  s : {} := {};\n  r : DINT;\nEND_VAR\nCASE s OF\n  1: r := DINT#1;\n  2..4: r := DINT#2;\nELSE\n  r := DINT#3;\nEND_CASE;\nEND_PROGRAM\n", t.name(), gen::lit_text(t, Sv::I(3))),
-        ));
     }
     // assignment of every source type into every target type (C03 role = assign), arrays and struct fields too
     for t in gen::ALL {
@@ -737,6 +754,26 @@ fn matrix_cells(rng: &mut Rng, shard: usize, nshards: usize, budget: usize) -> V
                 format!("io-bound {t} %{letter}"),
                 "matrix|io-binding".into(),
                 format!("PROGRAM Main\nVAR\n  i AT %I{letter}0{bit} : {t};\n  m AT %M{letter}8{bit} : {t};\n  q AT %Q{letter}0{bit} : {t};\n  keep : {t};\n  arr : ARRAY[0..1] OF {t};\nEND_VAR\nkeep := i;\narr[1] := m;\nq := i;\nm := keep;\nEND_PROGRAM\n"),
+            ));
+        }
+    }
+    // inherited variables (EXTENDS): written from the derived body, a derived method and an inherited method, per widening pair
+    for t in gen::NUMERIC {
+        for s in t.sources() {
+            n += 1;
+            if n % nshards != shard {
+                continue;
+            }
+            let v = if s.is_real() { Sv::F(2.0) } else { Sv::I(1) };
+            cells.push((
+                format!("inherited {} <- {}", t.name(), s.name()),
+                format!("matrix|inherited|{}", if s == t { "same-type" } else { "widening" }),
+                format!(
+                    "FUNCTION_BLOCK Base\nVAR total : {t}; arr : ARRAY[0..1] OF {t}; END_VAR\nVAR_OUTPUT o : {t}; END_VAR\nMETHOD PUBLIC SetBase\nVAR_INPUT d : {s}; END_VAR\ntotal := d;\nEND_METHOD\nEND_FUNCTION_BLOCK\nFUNCTION_BLOCK Derived EXTENDS Base\nVAR own : {t}; src : {s} := {lit}; END_VAR\nMETHOD PUBLIC SetDerived\nVAR_INPUT d : {s}; END_VAR\no := d;\nown := d;\nEND_METHOD\ntotal := src;\narr[1] := src;\no := src;\nown := src;\nEND_FUNCTION_BLOCK\nFUNCTION_BLOCK Deeper EXTENDS Derived\nVAR z : {s} := {lit}; END_VAR\ntotal := z;\nown := z;\nEND_FUNCTION_BLOCK\nPROGRAM Main\nVAR b : Base; d : Derived; e : Deeper; k : {s} := {lit}; END_VAR\nd();\nd.SetBase(d := k);\nd.SetDerived(d := k);\nb.SetBase(d := k);\ne();\ne.SetBase(d := k);\ne.SetDerived(d := k);\nEND_PROGRAM\n",
+                    t = t.name(),
+                    s = s.name(),
+                    lit = gen::lit_text(s, v)
+                ),
             ));
         }
     }
